@@ -313,54 +313,39 @@ def block_mode(chk, prog_by_cfg):
         ix = {"blacklist": fidx(prog, "humphrey_server::config::config::Config", "blacklist"),
               "list": fidx(prog, "humphrey_server::config::config::BlacklistConfig", "list"),
               "mode": fidx(prog, "humphrey_server::config::config::BlacklistConfig", "mode")}
-        falses = [i for i, blk in enumerate(b.blocks) for s in blk["stmts"] if "pl" in s and s["pl"]["l"] == 0 and s["rv"]["k"] == "use" and s["rv"]["o"].get("v") is False]
-        trues = [i for i, blk in enumerate(b.blocks) for s in blk["stmts"] if "pl" in s and s["pl"]["l"] == 0 and s["rv"]["k"] == "use" and s["rv"]["o"].get("v") is True]
-        chk.floor("verify_connection result sites", len(falses) + len(b.defs().get(0, [])), 1)
-        found = False
-        for fb in falses:
-            gs = core.guards_dominating(prog, b, fb)
-            mode_ok = any((lab == "true" and desc_contains(d, lambda y: y[0] == "call" and y[1].endswith("PartialEq>::eq") and any(core.is_variant(z, "BlacklistMode", "Block") for z in y[2])))
-                          or (lab == "false" and desc_contains(d, lambda y: y[0] == "call" and y[1].endswith("PartialEq>::ne") and any(core.is_variant(z, "BlacklistMode", "Block") for z in y[2])))
-                          for s, lab, d, info in gs)
-            listed = False
-            peer = False
-            for s, lab, d, info in gs:
-                if lab != "true":
-                    continue
-                for c in core.desc_calls(d):
-                    if c[1].endswith("::contains") and len(c[2]) > 1:
-                        if desc_contains(c[2][0], lambda y: y[0] == "field" and y[2] == ix["list"]):
-                            listed = True
-                            peer = desc_contains(c[2][1], lambda y: y[0] == "call" and y[1].endswith("TcpStream::peer_addr")) and \
-                                desc_contains(c[2][1], lambda y: y[0] == "call" and y[1].endswith("SocketAddr::ip"))
-            if mode_ok and listed:
-                found = True
-                chk.ob("R3.block_mode", fn, "the address tested is the socket peer address", peer, "block mode tests something other than stream.peer_addr().ip()", where=b.where(fb))
-        # `!refused` form: the result is the negation of a boolean that is exactly (mode == Block && list.contains(peer))
-        for d_ in b.defs().get(0, []):
-            if d_[2] == "assign" and d_[3]["rv"]["k"] == "un" and d_[3]["rv"]["op"] == "Not" and core.op_local(d_[3]["rv"]["o"]) is not None:
-                xl, _neg = core._flag_root(b, core.op_local(d_[3]["rv"]["o"]))
-                facts_ = panics._short_circuit(prog, b, xl, 0)
-                m_ok = l_ok = p_ok = False
-                for dd, truth in facts_:
-                    if not truth or not isinstance(dd, tuple):
-                        continue
-                    if desc_contains(dd, lambda y: y[0] == "call" and y[1].endswith("PartialEq>::eq") and any(core.is_variant(z, "BlacklistMode", "Block") for z in y[2])):
-                        m_ok = True
-                    for c in core.desc_calls(dd):
-                        if c[1].endswith("::contains") and len(c[2]) > 1 and desc_contains(c[2][0], lambda y: y[0] == "field" and y[2] == ix["list"]):
-                            l_ok = True
-                            p_ok = desc_contains(c[2][1], lambda y: y[0] == "call" and y[1].endswith("TcpStream::peer_addr")) and \
-                                desc_contains(c[2][1], lambda y: y[0] == "call" and y[1].endswith("SocketAddr::ip"))
-                if m_ok and l_ok:
-                    found = True
-                    chk.ob("R3.block_mode", fn, "the address tested is the socket peer address", p_ok, "block mode tests something other than stream.peer_addr().ip()", where=b.where(d_[0]))
+        # R-TRUTH (hv/booleval.py): once the peer address is known, the result as a function of M = (mode == Block) and
+        # L = list.contains(peer ip) is exactly !(M && L), however it is spelled (nested ifs, a boolean local, its negation, ...)
+        from .. import booleval
+        from .c01 import some_edge_of
+        peer_calls = [blk for blk, t in b.calls_to(r"TcpStream::peer_addr$")]
+        chk.floor("peer_addr call in verify_connection", len(peer_calls), 1)
+        peer_seen = {"ok": True, "n": 0}
+
+        def atom_of(prog_, body_, blk, t):
+            name = t.get("resolved") or t.get("callee") or ""
+            args = [core.describe(prog_, body_, a) for a in t.get("args", [])]
+            if core.re.search(r"PartialEq(<[^>]*>)?>?::(eq|ne)$", name) and any(core.is_variant(z, "BlacklistMode", "Block") for z in args) and \
+                    any(desc_contains(z, lambda y: y[0] == "field" and y[2] == ix["mode"]) for z in args):
+                return ("M", name.endswith("::eq"))
+            if name.endswith("::contains") and len(args) > 1 and desc_contains(args[0], lambda y: y[0] == "field" and y[2] == ix["list"]):
+                peer_seen["n"] += 1
+                if not (desc_contains(args[1], lambda y: y[0] == "call" and y[1].endswith("TcpStream::peer_addr")) and
+                        desc_contains(args[1], lambda y: y[0] == "call" and y[1].endswith("SocketAddr::ip"))):
+                    peer_seen["ok"] = False
+                return ("L", True)
+            return None
+        starts = [tgt for pb in peer_calls for (s_, tgt) in some_edge_of(prog, b, pb, "Ok")]
+        chk.floor("Ok edge of peer_addr", len(starts), 1)
+        tt = booleval.truth_table(prog, b, starts, atom_of, ["M", "L"]) if starts else {}
+        want = {(False, False): {True}, (False, True): {True}, (True, False): {True}, (True, True): {False}}
+        found = bool(tt) and tt.get((True, True)) == {False}
         chk.ob("R3.block_mode", fn, "returns false when mode == Block and the peer is listed", found,
-               "no `false` result is dominated by (mode == Block) && list.contains(peer)")
-        for tb in trues:
-            gs = core.guards_dominating(prog, b, tb)
-            bad = any(lab == "true" and desc_contains(d, lambda y: y[0] == "call" and y[1].endswith("::contains")) for s, lab, d, info in gs)
-            chk.ob("R3.block_mode", fn, "`true` is not returned under the listed edge", not bad, "", where=b.where(tb))
+               f"result for (mode == Block, listed) = (true, true) is {sorted(map(str, tt.get((True, True), [])))}: a listed peer is let through in block mode")
+        for vals in ((False, False), (False, True), (True, False)):
+            chk.ob("R3.block_mode", fn, f"`true` is not returned under the listed edge / other peers are accepted: (mode == Block, listed) = {vals}",
+                   tt.get(vals) == want[vals], f"result is {sorted(map(str, tt.get(vals, [])))}")
+        chk.ob("R3.block_mode", fn, "the address tested is the socket peer address", peer_seen["ok"] and peer_seen["n"] > 0,
+               "block mode tests something other than stream.peer_addr().ip()")
     # installed
     mb = prog.bodies.get("humphrey_server::server::server::main")
     chk.floor("server main", 1 if mb else 0, 1)
